@@ -689,43 +689,41 @@ def _run(ck, env):
 
     jd = Judge(ck)
     java = {"PATH": JAVA_PATH}  # the worlds run with a PATH of fake tools only
+    t0 = time.time()
+    phases = ck.extra.setdefault("phase_wall_s", {})
+
+    def mark(name):
+        phases[name] = round(time.time() - t0, 1)
+
     # ---- 1. the design: TLC jobs that do not depend on pkgcore run side by side ----
     jobs = {}
-    with ThreadPoolExecutor(7) as pool:
+    pool = ThreadPoolExecutor(7)
 
-        class ex:  # staggered submission: tlc.run numbers its scratch directories with a plain counter
-            @staticmethod
-            def submit(fn, *a, **kw):
-                f = pool.submit(fn, *a, **kw)
-                time.sleep(0.1)
-                return f
+    class ex:  # staggered submission: tlc.run numbers its scratch directories with a plain counter
+        @staticmethod
+        def submit(fn, *a, **kw):
+            f = pool.submit(fn, *a, **kw)
+            time.sleep(0.1)
+            return f
 
-        jobs["mc"] = ex.submit(tlc.run, "SyncBase_MC", cfg_text=mc_cfg({}, *ck.pick((3, 2, 2, 3), (8, 3, 3, 4))), workers=ck.pick(2, 8),
-                               timeout=ck.pick(600, 3000), env=java)
-        for consts, inv in GUARDS:
-            jobs[("guard", inv)] = ex.submit(tlc.run, "SyncBase_MC", cfg_text=mc_cfg(consts, 3, 2, 2, 3), workers=1, timeout=600, env=java)
-        nsim = ck.pick(120, 1000)
-        D = ck.pick(22, 30)
-        for kind in ("vcs", "rsync", "ts"):
-            n = nsim if kind != "vcs" else nsim // 2
-            jobs[("sim", kind)] = ex.submit(
-                tlc.run, "SyncBase_Sim",
-                cfg_text=("SPECIFICATION SimSpec\nCONSTANTS\n" + SIM_CONSTS % f'"{kind}"' + f"  D = {D}\n"
-                          '  VcsClasses = {"git", "git_svn", "hg", "bzr", "darcs", "cvs", "svn"}\n'
-                          '  Hosts = {"mirror", "rsync"}\n  UserParts = {"", "mirror@", "bob@"}\nINVARIANT Emit\n'),
-                simulate=f"num={n}", depth=4 * D, seed=seed() + 5, workers=1, timeout=900, env=java)
-        jobs["export"] = ex.submit(tlc.export_cases, "SyncBase_Export", cfg_text=f'CONSTANT Tier = "{ck.tier}"\n', timeout=900, env=java)
-    res = jobs["mc"].result()
-    ck.add_mc("MC:SyncBase_MC", res)
-    if res.violated:
-        raise tlc.MachineryError(f"SyncBase_MC: model violates {res.violated}\n{res.out[-3000:]}")
+    jobs["export"] = ex.submit(tlc.export_cases, "SyncBase_Export", cfg_text=f'CONSTANT Tier = "{ck.tier}"\n', timeout=900, env=java)
+    jobs["mc"] = ex.submit(tlc.run, "SyncBase_MC", cfg_text=mc_cfg({}, *ck.pick((3, 2, 2, 3), (8, 3, 3, 4))), workers=ck.pick(2, 8),
+                           timeout=ck.pick(600, 3000), env=java)
     for consts, inv in GUARDS:
-        g = jobs[("guard", inv)].result()
-        ck.add_mc(f"MC:guard {consts}", g)
-        if g.violated != inv:
-            raise tlc.MachineryError(f"vacuity guard {consts}: expected TLC to violate {inv}, got {g.violated}")
+        jobs[("guard", inv)] = ex.submit(tlc.run, "SyncBase_MC", cfg_text=mc_cfg(consts, 3, 2, 2, 3), workers=1, timeout=600, env=java)
+    nsim = ck.pick(120, 1000)
+    D = ck.pick(22, 30)
+    for kind in ("vcs", "rsync", "ts"):
+        n = nsim if kind != "vcs" else nsim // 2
+        jobs[("sim", kind)] = ex.submit(
+            tlc.run, "SyncBase_Sim",
+            cfg_text=("SPECIFICATION SimSpec\nCONSTANTS\n" + SIM_CONSTS % f'"{kind}"' + f"  D = {D}\n"
+                      '  VcsClasses = {"git", "git_svn", "hg", "bzr", "darcs", "cvs", "svn"}\n'
+                      '  Hosts = {"mirror", "rsync"}\n  UserParts = {"", "mirror@", "bob@"}\nINVARIANT Emit\n'),
+            simulate=f"num={n}", depth=4 * D, seed=seed() + 5, workers=1, timeout=900, env=java)
     cases, eres = jobs["export"].result()
     ck.add_mc("Export+Laws:SyncBase_Export", eres)
+    mark("export_done")
 
     # ---- 2. spec -> code, pure part ----
     events, meta = [], {}
@@ -769,7 +767,21 @@ def _run(ck, env):
         d0 = det[len(det) // 2]
         ck.sample(dict(direction="code->spec", markers=d0["markers"], owner=d0["owner"], cls=d0["got_cls"], uid=d0["got_uid"],
                        spawn=d0["spawns"][0]["argv"] if d0["spawns"] else None))
+    mark("select_detect_executed")
     jd.submit(events, meta, "Trace:select+detect")
+
+    # ---- the design runs have been going on in the background: collect them ----
+    res = jobs["mc"].result()
+    ck.add_mc("MC:SyncBase_MC", res)
+    if res.violated:
+        raise tlc.MachineryError(f"SyncBase_MC: model violates {res.violated}\n{res.out[-3000:]}")
+    for consts, inv in GUARDS:
+        g = jobs[("guard", inv)].result()
+        ck.add_mc(f"MC:guard {consts}", g)
+        if g.violated != inv:
+            raise tlc.MachineryError(f"vacuity guard {consts}: expected TLC to violate {inv}, got {g.violated}")
+
+    mark("mc_guards_done")
 
     # ---- 4. spec -> code, histories chosen by TLC ----
     events, meta = [], {}
@@ -794,6 +806,7 @@ def _run(ck, env):
             tid += 1
         if kind == "ts" and behs:
             ck.sample(dict(direction="spec->code", world=params, history=[(a["a"], a["f"], a["n"], a["c"], a["w"], a["s"]) for a in acts][:12]))
+    mark("sim_histories_executed")
     jd.submit(events, meta, "Trace:sim-histories")
 
     # ---- 5. code -> spec, random worlds and histories ----
@@ -819,5 +832,8 @@ def _run(ck, env):
         e0 = rs[0]
         ck.sample(dict(direction="code->spec", uri=e0["pre"] + e0["host"] + e0["post"], retries=e0["retries"],
                        attempts=[s["argv"][1] for s in e0["spawns"]], res=e0["res"]))
+    mark("random_histories_executed")
     jd.submit(events, meta, "Trace:random-histories")
     jd.finish()
+    pool.shutdown()
+    mark("traces_judged")
